@@ -2,6 +2,7 @@ import SynKitModel.Deficiency
 import SynKitProofs.NetGraphAlg
 import SynKitProofs.DeficiencyLemmas
 import SynKitProofs.DeficiencyRank
+import SynKitProofs.BipGraphViewsLemmas
 import Mathlib.LinearAlgebra.Matrix.Rank
 /-!
 # C19 — complexes, linkage classes and deficiency follow their definitions
@@ -205,3 +206,185 @@ example : [0, 0, 0] ∈ (complexVectorsF16 exF16).1 ∧
   rcases hr with rfl | rfl <;> revert h <;> decide
 
 end SynKit.Deficiency
+
+/-! ## C19 on a bipartite NetworkX graph (the graph entry path of `_complex_vectors`)
+
+Model: `SynKitModel/BipGraphViews.lean` (on top of `SynKitModel/BipGraph.lean`); lemmas:
+`SynKitProofs/BipGraphViewsLemmas.lean`. `analysisNet g = viewNet (netOfGraph g)` is the network
+the graph describes, in the order the analysis uses (species sorted by label, reactions in
+`G.nodes` order). The hypothesis is `BipGraph.WF` (node ids distinct, species labels distinct,
+coefficients non-negative) and nothing else: reaction labels play no role here, because
+`_complex_vectors` visits the reaction nodes in `G.nodes` order and never sorts them. -/
+namespace SynKit.BipGraph
+open SynKit.Stoich SynKit.Deficiency SynKit.NetGraphAlg
+
+/-- **C19, graph input: what `_complex_vectors` reads off the graph is what the model computes for
+the described network.** For a well-formed bipartite graph `g` of any of the four NetworkX classes,
+arcs written in either direction, parallel arcs, `stoich` possibly missing:
+the complex list (the same vectors, as Python ints, in the same first-appearance order) and the
+arcs of the complex graph read from `_as_bipartite(G)` are those of `Deficiency.complexVectors` on
+`analysisNet g`; so is the reaction → (reactant complex, product complex) assignment, reaction by
+reaction in node order; hence the linkage classes and the weak-reversibility verdict coincide. -/
+theorem graphComplexes_eq (g : BipGraph) (wf : WF g) :
+    graphComplexVectors g = liftVectors (complexVectors (analysisNet g)) ∧
+    graphComplexes g = (complexes (analysisNet g)).map liftComplex ∧
+    graphComplexArcs g = complexArcs (analysisNet g) ∧
+    graphReactionComplexes g = (analysisNet g).reactions.map (fun rx =>
+      (rx.id, liftComplex (vecOf (analysisNet g) rx.reactants),
+        liftComplex (vecOf (analysisNet g) rx.products))) ∧
+    graphLinkageClasses g = linkageClasses (analysisNet g) ∧
+    graphWeaklyReversible g = weaklyReversible (analysisNet g) :=
+  ⟨graphComplexVectors_eq g wf, by unfold graphComplexes; rw [graphComplexVectors_eq g wf]; rfl,
+    graphComplexArcs_eq g wf, graphReactionComplexes_eq g wf, graphLinkageClasses_eq g wf,
+    graphWeaklyReversible_eq g wf⟩
+
+/-- **C19, graph input, the helper called on the graph as given.** `_complex_vectors(G)` with `G`
+a `DiGraph` / `MultiDiGraph` (incident arcs `in_edges + out_edges`) or a `Graph` / `MultiGraph`
+(its own `G.edges(r)` branch, never reached through `compute_summary`) returns the same complexes
+and complex graph. -/
+theorem graphComplexesRaw_eq (g : BipGraph) (wf : WF g) :
+    graphComplexVectorsRaw g = liftVectors (complexVectors (analysisNet g)) ∧
+    graphComplexVectorsRaw g = graphComplexVectors g :=
+  ⟨graphComplexVectorsRaw_eq g wf, (graphComplexVectorsRaw_eq g wf).trans (graphComplexVectors_eq g wf).symm⟩
+
+/-- **C19, graph input: `compute_summary`.** With the stoichiometric rank supplied, the summary read
+off the graph (numbers of species / reaction nodes, of complexes, of linkage classes, deficiency,
+weak reversibility) is `computeSummary` of the described network, the `ValueError` branch (no
+species node or no reaction node) included. So every theorem of this file about `computeSummary`
+(`deficiency_formula`, `deficiency_nonneg`, `linkage_deficiency_sum_le`, `full`) speaks about
+graph inputs. -/
+theorem graphSummary_eq (g : BipGraph) (wf : WF g) (rank : Nat) :
+    graphSummary g rank = computeSummary (analysisNet g) rank := graphSummary_eq' g wf rank
+
+/-- **C19, graph input: `complexes_spec` transferred.** The complexes read off a well-formed graph
+are pairwise distinct and are exactly the reactant and product vectors of the reactions of the
+described network. -/
+theorem graphComplexes_spec (g : BipGraph) (wf : WF g) :
+    (graphComplexes g).Nodup ∧
+    ∀ v, v ∈ graphComplexes g ↔ ∃ rx ∈ (analysisNet g).reactions,
+      v = liftComplex (vecOf (analysisNet g) rx.reactants) ∨
+      v = liftComplex (vecOf (analysisNet g) rx.products) := by
+  obtain ⟨hn, hm, _⟩ := complexes_spec (analysisNet g)
+  rw [(graphComplexes_eq g wf).2.1]
+  refine ⟨hn.map (fun a b h => liftComplex_inj h), fun v => ?_⟩
+  rw [List.mem_map]
+  constructor
+  · rintro ⟨c, hc, rfl⟩
+    obtain ⟨rx, hrx, h⟩ := (hm c).1 hc
+    exact ⟨rx, hrx, h.imp (congrArg liftComplex) (congrArg liftComplex)⟩
+  · rintro ⟨rx, hrx, h | h⟩
+    · exact ⟨_, (hm _).2 ⟨rx, hrx, Or.inl rfl⟩, h.symm⟩
+    · exact ⟨_, (hm _).2 ⟨rx, hrx, Or.inr rfl⟩, h.symm⟩
+
+/-- **C19, graph input: direction of the arcs is irrelevant.** Reversing any subset of the arcs of
+a directed graph changes nothing of what `_complex_vectors` / `compute_summary` produce. Hypotheses
+as for `graphS_orientation_invariant` (C17) plus `IdsDistinct` (a species node is not a reaction
+node): on a non-multi `DiGraph` no two arcs may occupy the same ordered pair before or after. -/
+theorem graphComplexes_orientation_invariant (g g' : BipGraph) (hid : IdsDistinct g)
+    (hn : g'.nodes = g.nodes) (hm : g'.multi = g.multi) (ha : Reoriented g.arcs g'.arcs)
+    (hs : g.multi = true ∨ (ArcsSimple g ∧ ArcsSimple g')) :
+    graphComplexVectors g' = graphComplexVectors g ∧
+    graphComplexVectorsRaw g' = graphComplexVectorsRaw g ∧
+    graphReactionComplexes g' = graphReactionComplexes g ∧
+    graphLinkageClasses g' = graphLinkageClasses g ∧
+    graphWeaklyReversible g' = graphWeaklyReversible g ∧
+    ∀ rank, graphSummary g' rank = graphSummary g rank := by
+  obtain ⟨h1, h2, _, h4, h5, h6, h7⟩ := complexes_congr g g' hid (sameReading_orientation g g' hn hm ha hs)
+  exact ⟨h1, h2, h4, h5, h6, h7⟩
+
+/-- **C19, graph input: undirected = directed.** An undirected graph (`Graph` / `MultiGraph`) and
+the directed graph of the same multiplicity class holding the same edges, each written in an
+arbitrary direction, give the same complexes, complex graph, classes, verdict and summary — and the
+helper called on the undirected graph itself (`G.edges(r)` branch) agrees with both. -/
+theorem graphComplexes_undirected_eq_directed (g g' : BipGraph) (hid : IdsDistinct g)
+    (hn : g'.nodes = g.nodes) (hd : g.directed = false) (hd' : g'.directed = true)
+    (hm : g'.multi = g.multi) (ha : Reoriented g.arcs g'.arcs) (hs : g.multi = true ∨ ArcsSimple g) :
+    graphComplexVectors g' = graphComplexVectors g ∧
+    graphComplexVectorsRaw g' = graphComplexVectorsRaw g ∧
+    graphComplexVectorsRaw g = graphComplexVectors g ∧
+    graphReactionComplexes g' = graphReactionComplexes g ∧
+    graphLinkageClasses g' = graphLinkageClasses g ∧
+    graphWeaklyReversible g' = graphWeaklyReversible g ∧
+    ∀ rank, graphSummary g' rank = graphSummary g rank :=
+  complexes_congr g g' hid (sameReading_undirected g g' hn hd hd' hm ha hs)
+
+/-- **C19, graph input: a missing `stoich` is 1.** -/
+theorem graphComplexes_missing_stoich (g g' : BipGraph) (hid : IdsDistinct g)
+    (hn : g'.nodes = g.nodes) (hd : g'.directed = g.directed) (hm : g'.multi = g.multi)
+    (ha : g'.arcs = g.arcs.map BArc.fillStoich) (hs : g.multi = true ∨ ArcsSimple g) :
+    graphComplexVectors g' = graphComplexVectors g ∧
+    graphComplexVectorsRaw g' = graphComplexVectorsRaw g ∧
+    graphReactionComplexes g' = graphReactionComplexes g ∧
+    graphLinkageClasses g' = graphLinkageClasses g ∧
+    graphWeaklyReversible g' = graphWeaklyReversible g ∧
+    ∀ rank, graphSummary g' rank = graphSummary g rank := by
+  obtain ⟨h1, h2, _, h4, h5, h6, h7⟩ := complexes_congr g g' hid (sameReading_fill g g' hn hd hm ha hs)
+  exact ⟨h1, h2, h4, h5, h6, h7⟩
+
+/-! ### Non-vacuity: `a + 2 B ⇌ C` written as a graph
+
+Reaction nodes are inserted backward reaction first (`r2` before `r1`), species not in label order;
+`b` and `r1` are typed by the flag only, `c` carries `kind = "species"` and a contradicting flag,
+`a` has no label (its label is its id). Two arcs have no `stoich`. -/
+
+def c19Nodes : List BNode :=
+  [⟨"r2", some "reaction", none, some "back"⟩, ⟨"c", some "species", some 1, some "C"⟩,
+   ⟨"b", none, some 0, some "B"⟩, ⟨"r1", none, some 1, none⟩, ⟨"a", some "species", none, none⟩]
+
+/-- canonical orientation -/
+def c19Arcs : List BArc :=
+  [⟨"a", "r1", some "reactant", none⟩, ⟨"b", "r1", some "reactant", some 2⟩, ⟨"r1", "c", some "product", some 1⟩,
+   ⟨"c", "r2", some "reactant", none⟩, ⟨"r2", "a", some "product", some 1⟩, ⟨"r2", "b", some "product", some 2⟩]
+
+/-- first, third and last arc written the other way round -/
+def c19ArcsFlipped : List BArc :=
+  [⟨"r1", "a", some "reactant", none⟩, ⟨"b", "r1", some "reactant", some 2⟩, ⟨"c", "r1", some "product", some 1⟩,
+   ⟨"c", "r2", some "reactant", none⟩, ⟨"r2", "a", some "product", some 1⟩, ⟨"b", "r2", some "product", some 2⟩]
+
+def c19Di : BipGraph := ⟨c19Nodes, c19Arcs, true, false⟩
+def c19DiFlipped : BipGraph := ⟨c19Nodes, c19ArcsFlipped, true, false⟩
+def c19Graph : BipGraph := ⟨c19Nodes, c19ArcsFlipped, false, false⟩
+def c19Multi : BipGraph := ⟨c19Nodes, c19ArcsFlipped, false, true⟩
+
+theorem c19Reoriented : Reoriented c19Arcs c19ArcsFlipped :=
+  .flip _ (.keep _ (.flip _ (.keep _ (.keep _ (.flip _ .nil)))))
+
+/-- (a): the hypothesis holds on all four spellings. -/
+example : WF c19Di ∧ WF c19DiFlipped ∧ WF c19Graph ∧ WF c19Multi :=
+  ⟨wf_of_wfCoreB _ (by decide), wf_of_wfCoreB _ (by decide), wf_of_wfCoreB _ (by decide),
+    wf_of_wfCoreB _ (by decide)⟩
+
+/-- (a): both sides are the expected value — species order `B, C, a`; reaction `r2` comes first, so
+`C` is complex 0 and `2 B + a` complex 1; one linkage class, weakly reversible, δ = 2 − 1 − 1 = 0. -/
+example : graphComplexVectors c19Graph = ([[0, 1, 0], [2, 0, 1]], [(0, 1), (1, 0)]) ∧
+    liftVectors (complexVectors (analysisNet c19Graph)) = ([[0, 1, 0], [2, 0, 1]], [(0, 1), (1, 0)]) ∧
+    graphComplexVectorsRaw c19Graph = ([[0, 1, 0], [2, 0, 1]], [(0, 1), (1, 0)]) ∧
+    graphReactionComplexes c19Graph = [("r2", [0, 1, 0], [2, 0, 1]), ("r1", [2, 0, 1], [0, 1, 0])] ∧
+    (analysisNet c19Graph).species = ["B", "C", "a"] ∧
+    graphLinkageClasses c19Graph = [[0, 1]] ∧ graphWeaklyReversible c19Graph = true ∧
+    graphSummary c19Graph 1 = .ok ⟨3, 2, 2, 1, 1, 0, true⟩ ∧
+    computeSummary (analysisNet c19Graph) 1 = .ok ⟨3, 2, 2, 1, 1, 0, true⟩ := by decide
+
+/-- The `ValueError` branch agrees too: a graph without reaction nodes. -/
+example : graphSummary ⟨[⟨"a", some "species", none, none⟩], [], true, false⟩ 0 = .error .valueError ∧
+    computeSummary (analysisNet ⟨[⟨"a", some "species", none, none⟩], [], true, false⟩) 0 = .error .valueError := by
+  decide
+
+/-- (c), orientation: hypotheses satisfiable on the `DiGraph`, both readings are the expected one. -/
+example : IdsDistinct c19Di ∧ c19DiFlipped.nodes = c19Di.nodes ∧ Reoriented c19Di.arcs c19DiFlipped.arcs ∧
+    ArcsSimple c19Di ∧ ArcsSimple c19DiFlipped ∧
+    graphComplexVectors c19DiFlipped = ([[0, 1, 0], [2, 0, 1]], [(0, 1), (1, 0)]) ∧
+    graphComplexVectors c19Di = ([[0, 1, 0], [2, 0, 1]], [(0, 1), (1, 0)]) :=
+  ⟨by decide, rfl, c19Reoriented, by decide, by decide, by decide, by decide⟩
+
+/-- (c), undirected = directed: `Graph` vs `DiGraph`, `MultiGraph`; hypotheses hold. -/
+example : IdsDistinct c19Graph ∧ c19Graph.directed = false ∧ c19Di.directed = true ∧
+    ArcsSimple c19Graph ∧ graphComplexVectors c19Multi = graphComplexVectors c19Di ∧
+    graphComplexVectorsRaw c19Graph = graphComplexVectors c19Di := by decide
+
+/-- (c), missing `stoich`: two of the six arcs have none; spelling it out changes nothing. -/
+example : c19Multi.arcs.map BArc.fillStoich ≠ c19Multi.arcs ∧
+    graphComplexVectors ⟨c19Nodes, c19Multi.arcs.map BArc.fillStoich, false, true⟩ = graphComplexVectors c19Multi := by
+  decide
+
+end SynKit.BipGraph
